@@ -161,8 +161,30 @@ func runC20(r *R) {
 			bad++
 		}
 	}
+	// one run in five: `continueonerror` is set and a line that is not a JSON document stands between the entries (once
+	// or twice). Such a line is nobody's call: nothing may reach the server for it, the entries around it are sent as ever
+	broken := 0
+	if w.Draw(5) == 0 {
+		lines := strings.SplitAfter(file.String(), "\n")
+		lines = lines[:len(lines)-1]
+		for k := 1 + w.Draw(2); k > 0; k-- {
+			at := 1 + w.Draw(len(lines)) // (never first: the interesting case is a line that follows decoded entries)
+			bad := []string{"{\"tag\": \"broken\", \"call\": \n", "not json at all\n", "{\"tag\": \"broken\", \"call\": \"target.TargetService.Hello\", \"payload\": {\"name\": }}\n"}[w.Draw(3)]
+			lines = append(lines[:at], append([]string{bad}, lines[at:]...)...)
+			broken++
+		}
+		file.Reset()
+		file.WriteString(strings.Join(lines, ""))
+		r.Note("undecodable-lines-under-continue-on-error")
+	}
 	passes := 1 + w.Draw(2)
 	inst := 1 + w.Draw(5)
+	if broken > 0 && w.Draw(2) == 0 {
+		// many passes: the provider's queue (128 items) fills, the provider falls behind the instances and decodes into
+		// ammo objects that have been shot and handed back
+		passes = 20 + w.Draw(30)
+		r.Note("undecodable-lines/many-passes")
+	}
 	shared := w.Draw(3) == 0
 	timeout := []time.Duration{500 * time.Millisecond, 2 * time.Second, 0}[w.Draw(3)]
 	lat := []time.Duration{100 * time.Microsecond, 2 * time.Millisecond, 20 * time.Millisecond}[w.Draw(3)]
@@ -198,22 +220,30 @@ func runC20(r *R) {
 	for _, e := range ents {
 		descr = append(descr, fmt.Sprintf("%s %s %s md=%v good=%v", e.Tag, e.Call, e.Fields, e.MD, e.Good))
 	}
-	r.Sample(map[string]any{"mode": "grpc/json", "entries": descr, "passes": passes, "instances": inst, "shared_client": shared, "timeout": timeout.String(), "latency": lat.String(), "tls": useTLS})
+	r.Sample(map[string]any{"mode": "grpc/json", "entries": descr, "passes": passes, "instances": inst, "shared_client": shared, "timeout": timeout.String(), "latency": lat.String(), "tls": useTLS, "undecodable_lines": broken})
 	if inst >= 2 || (bad > 0 && good > 0) {
 		r.NonTrivial()
 	}
 	var tgt *grpcTarget
 	res := runHTTPPool(r, httpPoolSpec{
-		Ammo:      map[string]interface{}{"type": "grpc/json", "file": "/ammo/grpc.json", "passes": passes},
+		Ammo:      map[string]interface{}{"type": "grpc/json", "file": "/ammo/grpc.json", "passes": passes, "continueonerror": broken > 0},
 		Gun:       gun,
 		DebugLog:  debugLog,
-		Instances: inst, Tokens: n*passes + 2,
+		Instances: inst, Tokens: (n+broken)*passes + 2,
 		Files: map[string][]byte{"/ammo/grpc.json": []byte(file.String())},
 	}, func(nw *simnet.Net) { nw.Latency = lat }, func(nw *simnet.Net) { tgt = startGRPCTargetTLS(nw, target, useTLS, nil) })
 	if c20Infra(r, res, "grpc") {
 		return
 	}
 	calls := tgt.Calls()
+	if broken > 0 && len(calls) > good*passes {
+		var ms []string
+		for _, c := range calls {
+			ms = append(ms, strings.Join(c.MD["marker"], ","))
+		}
+		r.Fail("undecodable-line-sent", "the file has %d well-formed good entries and %d lines that are not JSON (continueonerror is set), %d passes: the server received %d calls, want %d (markers of the calls in arrival order: %v): a line that could not be decoded was sent as some other entry's call", good, broken, passes, len(calls), good*passes, ms)
+		return
+	}
 	effTimeout := timeout
 	if effTimeout == 0 {
 		effTimeout = 15 * time.Second // documented default
@@ -268,6 +298,14 @@ func runC20(r *R) {
 	byTag := map[string][]recSample{}
 	for _, s := range res.Samples {
 		byTag[s.Tags] = append(byTag[s.Tags], s)
+	}
+	if broken > 0 && len(res.Samples) == (n+broken)*passes {
+		for i, e := range ents {
+			if len(byTag[e.Tag]) > passes {
+				r.Fail("undecodable-line-reported-as-another-entry", "the file has %d entries and %d lines that are not JSON (continueonerror is set), %d passes: %d samples carry the tag of entry %d (%s), want %d: a line that could not be decoded was shot with what an earlier entry left in the recycled ammo object", n, broken, passes, len(byTag[e.Tag]), i, e.Tag, passes)
+				return
+			}
+		}
 	}
 	for i, e := range ents {
 		ss := byTag[e.Tag]
